@@ -215,10 +215,10 @@ def _worker(c):
 def run(rec, tier, seed):
     if tier == 'quick':
         widths = {'gauss': [0.5, 1.0, 2.0], 'yukawa': [0.5, 1.0, 2.0], 'expo': [0.7, 2.0], 'sphere': [1.03, 2.57]}
-        amps, nl = [1.0, -3.7], 5
+        amps, nl = [1.0, 1e-9, -3.7], 5          # 1e-9: a weak pair function (the transform is linear: small is not zero)
     else:
         widths = {'gauss': [0.5, 0.75, 1.0, 2.0, 3.0], 'yukawa': [0.5, 1.0, 2.0, 3.0], 'expo': [0.7, 1.0, 2.0], 'sphere': [1.03, 2.57, 4.11]}
-        amps, nl = [1.0, -3.7, 0.02], 8
+        amps, nl = [1.0, -3.7, 1e-9, 1e-13, 1e6, 0.02], 8
     cases = []
     for fam in widths:
         for w, A in itertools.product(widths[fam], amps):
